@@ -70,9 +70,12 @@ def cases(draw):
     # a class whose own _yatiml_recognize describes only its own format (a
     # marker key that its savorize removes): it rejects its subclasses' documents
     strict_at = draw(st.one_of(st.none(), st.none(), st.integers(0, d - 1)))
+    # the unregistered mix-in / topmost ancestor comes from "another module" and has
+    # the same __name__ as a registered class of the chain
+    alias = draw(st.one_of(st.none(), st.none(), st.integers(0, d - 1)))
     return {'depth': d, 'top': top, 'mix_at': mix_at, 'sib_at': sib_at, 'hooks': hooks,
             'word_cls': word_cls, 'raise_cls': raise_cls, 'position': position,
-            'strict_at': strict_at,
+            'strict_at': strict_at, 'alias': alias,
             'objs': [obj() for _ in range(n)],
             'order_rev': draw(st.booleans()), 'mix_first': draw(st.booleans())}
 
@@ -105,12 +108,17 @@ def build_spec(case):
                 if idx == strict:
                     out['recognize'].append(['attr', 'tag%d' % idx])
         return out
+    al = case.get('alias')
     if case['top']:
         classes.append(dict({'name': 'Top', 'kind': 'obj', 'bases': [], 'params': [], 'reg': False},
                             **hook_fields('Top')))
+        if al is not None and case['mix_at'] is None:
+            classes[-1]['py_name'] = 'K%d' % al
     if case['mix_at'] is not None:
         classes.append(dict({'name': 'Mix', 'kind': 'obj', 'bases': [], 'params': [], 'reg': False},
                             **hook_fields('Mix')))
+        if al is not None:
+            classes[-1]['py_name'] = 'K%d' % al
     for i in range(d):
         bases = ['K%d' % (i - 1)] if i else (['Top'] if case['top'] else [])
         if case['mix_at'] == i:
